@@ -18,7 +18,8 @@ SUCCESS_NOP = sqlglot.parse_one("SELECT 'Statement executed successfully.' as st
 def alias_in_join(expression: exp.Expression) -> exp.Expression:
     if (
         isinstance(expression, exp.Select)
-        and (aliases := {e.args.get("alias"): e for e in expression.expressions if isinstance(e, exp.Alias)})
+        # keyed by name: "SID" and sid name the same alias (identifiers are already folded to upper case)
+        and (aliases := {e.alias: e for e in expression.expressions if isinstance(e, exp.Alias)})
         and (joins := expression.args.get("joins"))
     ):
         j: exp.Join
@@ -27,7 +28,7 @@ def alias_in_join(expression: exp.Expression) -> exp.Expression:
                 (on := j.args.get("on"))
                 and (col := on.this)
                 and (isinstance(col, exp.Column))
-                and (alias := aliases.get(col.this))
+                and (alias := aliases.get(col.name))
             ):
                 col.args["this"] = alias.this
 
